@@ -162,21 +162,34 @@ def gen_dp(rng) -> dict:
     # signature: all measures and optionally identifiers; some with an alias
     sig = []
     cols = {}
+    use_alias = rng.random() < 0.3
     for n, t in ms + [x for x in ids if rng.random() < 0.5]:
-        alias = rng.choice([None, None, "v" + n[-1] + n[0].lower()])
+        alias = ("v" + n[-1] + n[0].lower()) if (use_alias and rng.random() < 0.5) else None
         sig.append([n, alias])
         cols[alias or n] = t
     nr = rng.choice([1, 2, 2, 3, 4, 5])
     named = rng.random() < 0.6
     rules = []
+    c = {"kind": "dp", "ds": dss, "sig": sig, "rules": rules, "out": rng.choice(["invalid", "all", "all_measures", None]), "rejected": 0}
+    st, _ = ds_engine({n: {"ids": [tuple(x) for x in d["ids"]], "ms": [tuple(x) for x in d["ms"]], "rows": []} for n, d in dss.items()})
     for i in range(nr):
-        cg = G.CG(rng, cols, risky_div=False)
-        then = cg.gen("Boolean", rng.choice([1, 1, 2]))
-        when = cg.gen("Boolean", rng.choice([1, 1, 2])) if rng.random() < 0.55 else None
-        ec, el = gen_err(rng, [f"EC{i + 1}", "err"])
-        rules.append({"name": f"r{i + 1}" if named else None, "when": list(when) if when else None, "then": list(then), "ec": ec, "el": el,
-                      "hist": cg.hist})
-    return {"kind": "dp", "ds": dss, "sig": sig, "rules": rules, "out": rng.choice(["invalid", "all", "all_measures", None])}
+        for _try in range(12):
+            cg = G.CG(rng, cols, risky_div=False)
+            then = cg.gen("Boolean", rng.choice([1, 1, 2]))
+            when = cg.gen("Boolean", rng.choice([1, 1, 2])) if rng.random() < 0.55 else None
+            ec, el = gen_err(rng, [f"EC{i + 1}", "err"])
+            rule = {"name": f"r{i + 1}" if named else None, "when": list(when) if when else None, "then": list(then), "ec": ec, "el": el,
+                    "hist": cg.hist}
+            # the engine's own semantic analysis decides whether the rule is a valid VTL rule (never guessed here)
+            probe = dict(c, rules=[dict(rule, name="r1" if named else None)])
+            r = engine.semantic_case(dp_ruleset_text(probe) + "DS_r <- check_datapoint(DS_1, dpr1 all);", st)
+            if r["ok"]:
+                rules.append(rule)
+                break
+            c["rejected"] += 1
+    if not rules:
+        rules.append({"name": "r1" if named else None, "when": None, "then": ["true", "(CLit (VBool true))"], "ec": None, "el": None, "hist": {}})
+    return c
 
 
 def dp_ruleset_text(c):
@@ -219,7 +232,7 @@ def gen_hr(rng, kind) -> dict:
         cands = order[i + 1:]
         k = min(len(cands), rng.choice([1, 2, 2, 3]))
         rs = rng.sample(cands, k)
-        right = [[rng.choice(["+", "+", "+", "-"]) if (j > 0 or rng.random() < 0.2) else "", it] for j, it in enumerate(rs)]
+        right = [[rng.choice(["+", "+", "+", "-"]) if (j > 0 or rng.random() < 0.03) else "", it] for j, it in enumerate(rs)]
         cmp_op = "=" if (kind == "hier" and rng.random() < 0.85) or rng.random() < 0.5 else rng.choice([">", ">=", "<", "<="])
         ec, el = gen_err(rng, [f"H{i + 1}", "imbalanced"])
         if isinstance(el, str):
@@ -426,6 +439,33 @@ def compare(er, parsed, name="DS_r") -> Optional[str]:
         only_m = [r for r in mr if r not in erows][:3]
         return f"datapoints differ (columns {names}): only in engine {only_e}; only in model {only_m}"
     return None
+
+
+def normalise(c, er) -> List[Tuple[str, str]]:
+    """Unnamed hierarchical rules: the manual identifies a rule by its position in the ruleset; the engine numbers the rules
+    after its dependency sort.  The rule a row belongs to is recovered from the row's code item (left sides are distinct in
+    generated rulesets); rows are re-labelled with the textual position and the difference is reported once."""
+    if not er["ok"] or c["kind"] != "chk_h" or any(r["name"] for r in c["rules"]):
+        return []
+    pos = {r["left"]: str(i + 1) for i, r in enumerate(c["rules"])}
+    moved = None
+    for d in er["datasets"].values():
+        names = [x[0] for x in d["comps"]]
+        if "ruleid" not in names or "Id_2" not in names:
+            continue
+        i_r, i_c = names.index("ruleid"), names.index("Id_2")
+        rows = []
+        for r in d["rows"]:
+            want = pos.get(r[i_c])
+            if want is not None and r[i_r] != want:
+                moved = moved or (r[i_c], r[i_r], want)
+                r = tuple(want if j == i_r else v for j, v in enumerate(r))
+            rows.append(r)
+        d["rows"] = rows
+    if moved:
+        return [("check_hierarchy:unnamed-rules-numbered-after-dependency-sort",
+                 f"rule for code item {moved[0]} is rule {moved[2]} of the ruleset but its rows carry ruleid {moved[1]}")]
+    return []
 
 
 # ------------------------------------------------------------------ the property predicate on engine output alone
